@@ -293,20 +293,20 @@ default b
   rejects (bs "include nosuch.ninja
 ") 1 E_loading.
 Proof.
-  split; [apply C12_rejects_duplicate_output|].
-  split; [apply C12_rejects_duplicate_output|].
+  split; [exact (proj1 C12_rejects_duplicate_output)|].
+  split; [exact (proj1 (proj2 C12_rejects_duplicate_output))|].
   split; [exact C12_rejects_unknown_rule|].
   split; [exact C12_rejects_unknown_pool|].
   split; [exact C12_rejects_duplicate_rule|].
-  split; [apply C12_rejects_duplicate_pool|].
-  split; [apply C12_rejects_missing_command|].
+  split; [exact (proj1 C12_rejects_duplicate_pool)|].
+  split; [exact (proj1 C12_rejects_missing_command)|].
   split; [exact C12_rejects_nonreserved_rule_variable|].
-  split; [apply C12_rejects_rspfile_without_content|].
-  split; [apply C12_rejects_bad_escape|].
-  split; [apply C12_rejects_tab_indentation|].
+  split; [exact (proj1 C12_rejects_rspfile_without_content)|].
+  split; [exact (proj1 C12_rejects_bad_escape)|].
+  split; [exact (proj1 C12_rejects_tab_indentation)|].
   split; [exact C12_rejects_dyndep_not_input|].
-  split; [apply C12_rejects_empty_path|].
-  split; [apply C12_rejects_bad_depth|].
+  split; [exact (proj1 C12_rejects_empty_path)|].
+  split; [exact (proj1 C12_rejects_bad_depth)|].
   split; [exact C12_rejects_unknown_default_target|exact C12_rejects_missing_include].
 Qed.
 Print Assumptions C12_rejects.
